@@ -4,7 +4,7 @@
    distances.py).  Geometric / distribution metrics involve float32 kernels whose
    rounding is not modelled: they are compared with float64 references. *)
 From Coq Require Import ZArith List Bool Lia.
-From PV Require Import Metrics C07Proofs.
+From PV Require Import Metrics C07Proofs SparseOps Lattice LatticeProofs.
 Import ListNotations.
 Open Scope Z_scope.
 
@@ -70,3 +70,63 @@ Example C07_example :
   counts [true; true; false; false; true] [true; false; true; false; true] = (2, 1, 1) /\
   m_jaccard 2 1 1 = (2, 4) /\ m_yule 5 2 1 1 = (2, 3) /\ counts_ok 5 2 1 1.
 Proof. vm_compute. repeat split; try reflexivity; discriminate. Qed.
+
+(* ------------------------------------------------------------------------------
+   The polynomial ("lattice") family: squared_euclidean, manhattan, chebyshev,
+   hamming (numerator / dimension) and bray_curtis (numerator / denominator), for
+   ALL integer vectors of ALL lengths (model/Lattice.v mirrors the accumulator loops
+   of distances.py).  On float32 vectors holding small integers the compiled kernels
+   are exact, so the correspondence stream compares them with these values bit for
+   bit; for general float32 inputs the rounding of the kernels is not modelled (the
+   float64 reference comparison covers them). *)
+Theorem C07_lattice_symmetric : forall x y,
+  squared_euclidean x y = squared_euclidean y x /\
+  manhattan x y = manhattan y x /\
+  chebyshev x y = chebyshev y x /\
+  (length x = length y -> hamming x y = hamming y x) /\
+  bray_curtis x y = bray_curtis y x.
+Proof. exact lattice_symmetric. Qed.
+Print Assumptions C07_lattice_symmetric.
+
+Theorem C07_lattice_identity : forall x,
+  squared_euclidean x x = 0 /\ manhattan x x = 0 /\ chebyshev x x = 0 /\
+  fst (hamming x x) = 0 /\ fst (bray_curtis x x) = 0.
+Proof. exact lattice_identity. Qed.
+Print Assumptions C07_lattice_identity.
+
+Theorem C07_lattice_nonneg : forall x y,
+  0 <= squared_euclidean x y /\ 0 <= manhattan x y /\ 0 <= chebyshev x y /\ 0 <= fst (hamming x y).
+Proof. exact lattice_nonneg. Qed.
+Print Assumptions C07_lattice_nonneg.
+
+(* zero ONLY for identical vectors (these four are metrics, not just dissimilarities) *)
+Theorem C07_lattice_indiscernible : forall x y, length x = length y ->
+  (squared_euclidean x y = 0 -> x = y) /\ (manhattan x y = 0 -> x = y) /\
+  (chebyshev x y = 0 -> x = y) /\ (fst (hamming x y) = 0 -> x = y).
+Proof. exact lattice_indiscernible. Qed.
+Print Assumptions C07_lattice_indiscernible.
+
+Theorem C07_lattice_triangle : forall x y z, length x = length y -> length y = length z ->
+  manhattan x z <= manhattan x y + manhattan y z /\
+  chebyshev x z <= chebyshev x y + chebyshev y z /\
+  fst (hamming x z) <= fst (hamming x y) + fst (hamming y z).
+Proof. exact lattice_triangle. Qed.
+Print Assumptions C07_lattice_triangle.
+
+(* bray_curtis divides only by a positive denominator (never 0/0 -> NaN), and lies in
+   [0, 1] on non-negative data *)
+Theorem C07_bray_curtis_no_division_by_zero : forall x y, 0 < snd (bray_curtis x y).
+Proof. exact bray_curtis_denominator_positive. Qed.
+Print Assumptions C07_bray_curtis_no_division_by_zero.
+
+Theorem C07_bray_curtis_range : forall x y,
+  Forall (fun a => 0 <= a) x -> Forall (fun b => 0 <= b) y ->
+  0 <= fst (bray_curtis x y) <= snd (bray_curtis x y).
+Proof. exact bray_curtis_range. Qed.
+Print Assumptions C07_bray_curtis_range.
+
+Example C07_lattice_example :
+  squared_euclidean [3; -1; 0; 2] [1; -1; 4; 2] = 20 /\ manhattan [3; -1; 0; 2] [1; -1; 4; 2] = 6 /\
+  chebyshev [3; -1; 0; 2] [1; -1; 4; 2] = 4 /\ hamming [3; -1; 0; 2] [1; -1; 4; 2] = (2, 4) /\
+  bray_curtis [3; 1; 0; 2] [1; 1; 4; 2] = (6, 14) /\ bray_curtis [0; 0] [0; 0] = (0, 1).
+Proof. vm_compute. repeat split; reflexivity. Qed.
